@@ -55,6 +55,8 @@ class Packet(Frame):
 
         super().__init__(frame[4:])  # remove RSSI
 
+        if dtm.tzinfo is not None:  # e.g. a log line stamped '...+00:00': all dtms are
+            dtm = dtm.astimezone().replace(tzinfo=None)  # naive (local), as is dt.now()
         self._dtm: dt = dtm
 
         self._rssi: str = frame[0:3]
